@@ -344,3 +344,18 @@ func (Entropy) Read(p []byte) (int, error) {
 	}
 	return len(p), nil
 }
+
+// ---- Gate: a harness goroutine waits until the kernel (harness, in kernel
+// context) opens it; used to let simulated parties act between two steps of a
+// scripted goroutine.
+
+type Gate struct{ Open bool }
+
+type gateOp struct{ g *Gate }
+
+func (o gateOp) Ready() bool    { return o.g.Open }
+func (o gateOp) Do()            { o.g.Open = false }
+func (o gateOp) OpName() string { return "gate" }
+
+// Wait parks the calling simulated goroutine until the gate is opened.
+func (g *Gate) Wait() { Trap(gateOp{g}, true) }
